@@ -23,7 +23,7 @@ template <typename V = void, typename E = StopError>
 }
 
 template <typename V = void, typename E = StopError>
-[[nodiscard]] SharedContract<V, E> MakeSharedContractOn(IExecutor& e) {
+[[nodiscard]] SharedContractOn<V, E> MakeSharedContractOn(IExecutor& e) {
   auto core = MakeShared<detail::SharedCore<V, E>>(detail::kSharedRefWithFuture);
   e.IncRef();
   core->_executor.Reset(NoRefTag{}, &e);
